@@ -651,6 +651,9 @@ type fpat struct {
 func randSet(r *Rng, maxPats, maxDepth int) []fpat {
 	n := 1 + r.Intn(maxPats)
 	lits := []string{"a", "b", "c", "ab"}
+	if r.Chance(25) {
+		lits = []string{"a", "b$", "c", "a$b"} // '$' inside a literal token (also in mount paths, which are taken from the patterns)
+	}
 	var out []fpat
 	for i := 0; i < n; i++ {
 		d := 1 + r.Intn(maxDepth)
@@ -706,7 +709,7 @@ func randSet(r *Rng, maxPats, maxDepth int) []fpat {
 
 // arrange the full patterns over a top mux and nsub mounted muxes
 func arrange(r *Rng, set []fpat, nsub int, withListeners bool) desc {
-	topPath := r.Pick([]string{"", "", "svc", "s.t"})
+	topPath := r.Pick([]string{"", "", "svc", "s.t", "shop$", "x.y$z", "a$$", "p-q_1.~{}"})
 	d := desc{Ops: []ropD{{K: "new", Path: topPath}}}
 	type sub struct {
 		id     int
@@ -1085,7 +1088,7 @@ func main() {
 			nb = 2000
 		}
 		for i := 0; i < nb; i++ {
-			d := desc{Ops: []ropD{{K: "new", Path: r.Pick([]string{"", "p", "p.q", "$x", "a.", ">", "*", "a..b", "p?"})}, {K: "new", Path: r.Pick([]string{"", "", "q", "a"})}}}
+			d := desc{Ops: []ropD{{K: "new", Path: r.Pick([]string{"", "p", "p.q", "$x", "a.", ">", "*", "a..b", "p?", "p$", "a$b.c", "a.$", "a*"})}, {K: "new", Path: r.Pick([]string{"", "", "q", "a"})}}}
 			nops := 2 + r.Intn(7)
 			lid := 1
 			for j := 0; j < nops; j++ {
@@ -1101,7 +1104,7 @@ func main() {
 					d.Ops = append(d.Ops, ropD{K: "listen", M: m, Pat: pat, Lid: lid})
 					lid++
 				case 5:
-					d.Ops = append(d.Ops, ropD{K: "mount", M: m, Path: r.Pick([]string{"a", "a.b", "", "$x", "a.>", "b", "a..b", "*"}), Sub: 1 - m})
+					d.Ops = append(d.Ops, ropD{K: "mount", M: m, Path: r.Pick([]string{"a", "a.b", "", "$x", "a.>", "b", "a..b", "*", "a$", "b$c.d"}), Sub: 1 - m})
 				case 6:
 					d.Ops = append(d.Ops, ropD{K: "route", M: m, Path: r.Pick([]string{"a", "r", "", "a.b", "$x"}), Body: []ropD{
 						{K: "handle", Pat: pat, Hid: 50 + j}, {K: "listen", Pat: r.Pick(bad), Lid: 90 + j},
@@ -1195,6 +1198,12 @@ func main() {
 				{K: "handle", M: 0, Pat: "e", Hid: 4, Lpat: "e..f", Lid: 4, Onreg: true}, {K: "handle", M: 0, Pat: "e", Hid: 5, Lpat: "g", Lid: 5},
 				N(""), {K: "handle", M: 1, Pat: "$k", Hid: 6, Lpat: "$k", Lid: 6, Onreg: true}, Mt(0, "m", 1)},
 				map[int][]string{0: {"s.a.1", "s.b", "s.c.x", "s.d.1", "s.e", "s.g", "s.m.q"}, 1: {"q"}}},
+			// '$' (and other legal characters) inside literal tokens of mux / mount / route paths
+			{[]ropD{N("shop$"), N("q$x"), H(0, "item.$id", 7, "g.${id}", true), H(1, "$k", 8, "${k}", false), Mt(0, "us$", 1),
+				{K: "route", M: 0, Path: "price.us$", Body: []ropD{{K: "handle", Pat: "$cur", Hid: 9, Grp: "c.${cur}"}}}, H(0, "us$.q$x.lit$.$z", 10, "${z}", false),
+				N("a$$"), N("x.y$z"), N("a-b_c.~{}|"), N("$a"), N("a.$b"), N("a$.*"), N("a.>"), N("a$b."), N("a?$"), Mt(0, "m$.n$$", 3), Mt(0, "ok.$bad", 4), H(3, "leaf.$v", 11, "${v}", false), Rg(0)},
+				map[int][]string{0: {"shop$.item.42", "shop$.us$.q$x.v", "shop$.price.us$.eur", "shop$.us$.q$x.lit$.w", "shop$.m$.n$$.a$$.leaf.9", "shop.item.42", "shop$"},
+					1: {"q$x.v", "q$x.lit$.w", "q$x"}, 2: {"eur"}}},
 			// Parallel groups through mount points
 			{[]ropD{N(""), N("n"), Mt(0, "m", 1), P(0, "m.n.$x", 1, ""), P(1, "y.$z", 2, "${z}"), P(0, "m.n.y2.$w", 3, "${w}"), H(1, "g.$z", 4, "${z}", false)},
 				map[int][]string{0: {"m.n.1", "m.n.y.2", "m.n.y2.3", "m.n.g.4"}, 1: {"n.1", "n.y.2", "n.y2.3", "n.g.4"}}},
